@@ -209,7 +209,7 @@ def term_match(a, b):
     return a == b
 
 
-def alternatives(facts, fn, term, depth=2):
+def alternatives(facts, fn, term, depth=2, as_terms=False):
     """rendered alternatives of a symex term: every multiply-assigned local (`phi_N`) inside it is replaced, one alternative per
     definition (assignments and call results), up to `depth` levels. `match`/`if` expressions produce such locals, iterator / Option
     combinators do not, so rules that look for a sub-expression use this to be independent of which form the source uses."""
@@ -238,7 +238,10 @@ def alternatives(facts, fn, term, depth=2):
         for alts in parts:
             res = [r + (a_,) for r in res for a_ in alts][:16]
         return res
-    return [render(strip(x)) if isinstance(x, tuple) else str(x) for x in expand(term, depth)]
+    out = expand(term, depth)
+    if as_terms:
+        return out
+    return [render(strip(x)) if isinstance(x, tuple) else str(x) for x in out]
 
 
 def covers_all(dnf, ignore=lambda a: False, limit=8192):
